@@ -489,6 +489,27 @@ class Interp:
     def s_Pass(self, node, st):
         return [(st, ("next", None))]
 
+    def s_Delete(self, node, st):
+        """del obj[key] on task-modelled containers (delitem_hook)"""
+        hook = self.ctx.config.get("delitem_hook")
+        if hook is None or len(node.targets) != 1 or not isinstance(node.targets[0], ast.Subscript):
+            raise OutOfSubset("del statement")
+        tgt = node.targets[0]
+        out = []
+        for s1, obj in self.eval(tgt.value, st):
+            if isinstance(obj, Raised):
+                out.append((s1, ("raise", obj.exc)))
+                continue
+            for s2, key in self.eval(tgt.slice, s1):
+                if isinstance(key, Raised):
+                    out.append((s2, ("raise", key.exc)))
+                    continue
+                r = hook(self, s2, obj, key)
+                if r is None:
+                    raise OutOfSubset("del on %r" % (obj,))
+                out.extend(r)
+        return out
+
     def s_Import(self, node, st):
         hook = self.ctx.config.get("import_hook")
         if hook:
